@@ -79,12 +79,15 @@ Format/Export.vos Format/Export.vok Format/Export.required_vos: Format/Export.v 
 Model/Metrics.vo Model/Metrics.glob Model/Metrics.v.beautified Model/Metrics.required_vo: Model/Metrics.v Base/Result.vo Base/Str.vo Base/PyFloat.vo Base/AstOp.vo Model/Ast.vo Model/FM.vo Model/Ctc.vo Model/Queries.vo Model/Ops.vo Model/EqHash.vo Gen/Tables_metrics.vo
 Model/Metrics.vio: Model/Metrics.v Base/Result.vio Base/Str.vio Base/PyFloat.vio Base/AstOp.vio Model/Ast.vio Model/FM.vio Model/Ctc.vio Model/Queries.vio Model/Ops.vio Model/EqHash.vio Gen/Tables_metrics.vio
 Model/Metrics.vos Model/Metrics.vok Model/Metrics.required_vos: Model/Metrics.v Base/Result.vos Base/Str.vos Base/PyFloat.vos Base/AstOp.vos Model/Ast.vos Model/FM.vos Model/Ctc.vos Model/Queries.vos Model/Ops.vos Model/EqHash.vos Gen/Tables_metrics.vos
+Model/GenRandom.vo Model/GenRandom.glob Model/GenRandom.v.beautified Model/GenRandom.required_vo: Model/GenRandom.v Base/Result.vo Base/Str.vo Base/PyFloat.vo Base/AstOp.vo Model/Ast.vo Model/FM.vo Model/Queries.vo
+Model/GenRandom.vio: Model/GenRandom.v Base/Result.vio Base/Str.vio Base/PyFloat.vio Base/AstOp.vio Model/Ast.vio Model/FM.vio Model/Queries.vio
+Model/GenRandom.vos Model/GenRandom.vok Model/GenRandom.required_vos: Model/GenRandom.v Base/Result.vos Base/Str.vos Base/PyFloat.vos Base/AstOp.vos Model/Ast.vos Model/FM.vos Model/Queries.vos
 Extract/Codec.vo Extract/Codec.glob Extract/Codec.v.beautified Extract/Codec.required_vo: Extract/Codec.v Base/Result.vo Base/Str.vo Base/Sexp.vo Base/AstOp.vo Model/Ast.vo Model/FM.vo Model/PFM.vo Format/Xml.vo Format/Uvl.vo Format/Afm.vo
 Extract/Codec.vio: Extract/Codec.v Base/Result.vio Base/Str.vio Base/Sexp.vio Base/AstOp.vio Model/Ast.vio Model/FM.vio Model/PFM.vio Format/Xml.vio Format/Uvl.vio Format/Afm.vio
 Extract/Codec.vos Extract/Codec.vok Extract/Codec.required_vos: Extract/Codec.v Base/Result.vos Base/Str.vos Base/Sexp.vos Base/AstOp.vos Model/Ast.vos Model/FM.vos Model/PFM.vos Format/Xml.vos Format/Uvl.vos Format/Afm.vos
-Extract/Driver.vo Extract/Driver.glob Extract/Driver.v.beautified Extract/Driver.required_vo: Extract/Driver.v Base/Result.vo Base/Str.vo Base/Sexp.vo Base/AstOp.vo Model/Ast.vo Model/FM.vo Model/Ctc.vo Model/Queries.vo Model/Sem.vo Model/Ops.vo Model/EqHash.vo Model/PFM.vo Format/Json.vo Format/Glencoe.vo Format/Xml.vo Format/Uvl.vo Format/Afm.vo Format/Export.vo Model/Metrics.vo Extract/Codec.vo
-Extract/Driver.vio: Extract/Driver.v Base/Result.vio Base/Str.vio Base/Sexp.vio Base/AstOp.vio Model/Ast.vio Model/FM.vio Model/Ctc.vio Model/Queries.vio Model/Sem.vio Model/Ops.vio Model/EqHash.vio Model/PFM.vio Format/Json.vio Format/Glencoe.vio Format/Xml.vio Format/Uvl.vio Format/Afm.vio Format/Export.vio Model/Metrics.vio Extract/Codec.vio
-Extract/Driver.vos Extract/Driver.vok Extract/Driver.required_vos: Extract/Driver.v Base/Result.vos Base/Str.vos Base/Sexp.vos Base/AstOp.vos Model/Ast.vos Model/FM.vos Model/Ctc.vos Model/Queries.vos Model/Sem.vos Model/Ops.vos Model/EqHash.vos Model/PFM.vos Format/Json.vos Format/Glencoe.vos Format/Xml.vos Format/Uvl.vos Format/Afm.vos Format/Export.vos Model/Metrics.vos Extract/Codec.vos
+Extract/Driver.vo Extract/Driver.glob Extract/Driver.v.beautified Extract/Driver.required_vo: Extract/Driver.v Base/Result.vo Base/Str.vo Base/Sexp.vo Base/AstOp.vo Model/Ast.vo Model/FM.vo Model/Ctc.vo Model/Queries.vo Model/Sem.vo Model/Ops.vo Model/EqHash.vo Model/PFM.vo Format/Json.vo Format/Glencoe.vo Format/Xml.vo Format/Uvl.vo Format/Afm.vo Format/Export.vo Model/Metrics.vo Model/GenRandom.vo Extract/Codec.vo
+Extract/Driver.vio: Extract/Driver.v Base/Result.vio Base/Str.vio Base/Sexp.vio Base/AstOp.vio Model/Ast.vio Model/FM.vio Model/Ctc.vio Model/Queries.vio Model/Sem.vio Model/Ops.vio Model/EqHash.vio Model/PFM.vio Format/Json.vio Format/Glencoe.vio Format/Xml.vio Format/Uvl.vio Format/Afm.vio Format/Export.vio Model/Metrics.vio Model/GenRandom.vio Extract/Codec.vio
+Extract/Driver.vos Extract/Driver.vok Extract/Driver.required_vos: Extract/Driver.v Base/Result.vos Base/Str.vos Base/Sexp.vos Base/AstOp.vos Model/Ast.vos Model/FM.vos Model/Ctc.vos Model/Queries.vos Model/Sem.vos Model/Ops.vos Model/EqHash.vos Model/PFM.vos Format/Json.vos Format/Glencoe.vos Format/Xml.vos Format/Uvl.vos Format/Afm.vos Format/Export.vos Model/Metrics.vos Model/GenRandom.vos Extract/Codec.vos
 Extract/Extract.vo Extract/Extract.glob Extract/Extract.v.beautified Extract/Extract.required_vo: Extract/Extract.v Base/Sexp.vo Extract/Driver.vo
 Extract/Extract.vio: Extract/Extract.v Base/Sexp.vio Extract/Driver.vio
 Extract/Extract.vos Extract/Extract.vok Extract/Extract.required_vos: Extract/Extract.v Base/Sexp.vos Extract/Driver.vos
